@@ -360,6 +360,39 @@ fn startup_case(out: &mut Out, r: &mut Rng, cfg: &ProcCfg) {
             }
         }
     }
+    // probers that behave differently from `curl`: connect and half-close (FIN) before reading, connect and stay silent,
+    // connect and close at once — each half-closing prober must still get the fixed response, and time service must go on
+    // while the silent ones are held open (seeded changes C15-r9 / C19-r9 made the handler READ from the connection)
+    let (mut hc_odd_ok, mut hc_odd_n) = (0usize, 0usize);
+    let mut silent: Vec<TcpStream> = vec![];
+    if let Some(hp) = sp.hc_port {
+        let addr: SocketAddr = format!("127.0.0.1:{}", hp).parse().unwrap();
+        for _ in 0..(2 * n).min(8).max(4) {
+            if let Ok(c) = TcpStream::connect_timeout(&addr, Duration::from_secs(2)) { silent.push(c); }
+            if let Ok(c) = TcpStream::connect_timeout(&addr, Duration::from_secs(2)) { drop(c); }
+        }
+        for _ in 0..(2 * n).min(8).max(4) {
+            hc_odd_n += 1;
+            if let Ok(mut c) = TcpStream::connect_timeout(&addr, Duration::from_secs(2)) {
+                let _ = c.shutdown(std::net::Shutdown::Write);
+                c.set_read_timeout(Some(Duration::from_secs(3))).ok();
+                let mut got = vec![];
+                let mut tmp = [0u8; 256];
+                loop { match c.read(&mut tmp) { Ok(0) => break, Ok(m) => got.extend_from_slice(&tmp[..m]), Err(_) => break } }
+                if got == HTTP_RESPONSE.as_bytes() { hc_odd_ok += 1; }
+            }
+        }
+        // UDP service while the silent connections are still open
+        let s = UdpSocket::bind("127.0.0.1:0").unwrap();
+        s.set_read_timeout(Some(Duration::from_millis(700))).unwrap();
+        let mut served = false;
+        for _ in 0..4 {
+            let _ = s.send_to(&classic_request(&r.bytes(64), 1024), sp.addr());
+            if recv_from_port(&s, &mut buf, sp.port).is_ok() { served = true; break; }
+        }
+        hc_odd_n += 1;
+        if served { hc_odd_ok += 1; }
+    }
     // burst probe: many connections pending at once behind a single readiness event. The server is
     // stopped (SIGSTOP) while the kernel completes the handshakes into the accept queues, then continued.
     let (mut hc_burst_ok, mut hc_burst_n) = (0usize, 0usize);
@@ -432,6 +465,7 @@ fn startup_case(out: &mut Out, r: &mut Rng, cfg: &ProcCfg) {
             for (s, req) in pending.iter() { let _ = s.send_to(req, sp.addr()); }
         }
     }
+    drop(silent);
     let live1 = sp.live_workers();
     let alive = sp.child.try_wait().ok().flatten().is_none();
     sp.signal(libc::SIGTERM);
@@ -440,8 +474,8 @@ fn startup_case(out: &mut Out, r: &mut Rng, cfg: &ProcCfg) {
     let panics = text.matches("panicked").count();
     let leak = leak_scan(&secret_patterns(&cfg.seed), text.as_bytes()).unwrap_or("0".into());
     let imp = format!(
-        "started=1 n={} live0={} live1={} keys={} answered={}/{} hc_seq={}/{} hc_par={}/{} hc_burst={}/{} steady={}/{} udp_after={} alive={} panics={} exit={} leak={}",
-        n, live0, live1, keys.len(), answered, sent, hc_seq_ok, if sp.hc_port.is_some() { 20 } else { 0 }, hc_par_ok, hc_par_n, hc_burst_ok, hc_burst_n, steady_ok, steady_sent,
+        "started=1 n={} live0={} live1={} keys={} answered={}/{} hc_seq={}/{} hc_par={}/{} hc_burst={}/{} hc_odd={}/{} steady={}/{} udp_after={} alive={} panics={} exit={} leak={}",
+        n, live0, live1, keys.len(), answered, sent, hc_seq_ok, if sp.hc_port.is_some() { 20 } else { 0 }, hc_par_ok, hc_par_n, hc_burst_ok, hc_burst_n, hc_odd_ok, hc_odd_n, steady_ok, steady_sent,
         udp_after, if alive { 1 } else { 0 }, panics,
         exit.map(|e| e.0.to_string()).unwrap_or("timeout".into()), leak
     );
@@ -661,6 +695,7 @@ fn shutdown_case(out: &mut Out, r: &mut Rng, nworkers: usize, client_stats: bool
     cfg.client_stats = client_stats;
     // status_interval also paces the statistics reporter: cover short, medium and the default (600 s)
     cfg.status = match delay_ms % 3 { 0 => None, 1 => Some(10), _ => Some(120) };
+    if regime == "hc-silent" { cfg.hc = true; }
     if regime == "load-stats" || regime == "persist-fault" {
         // busy workers publishing per-client snapshots every 100 ms into a queue the reporter drains once a second
         cfg.status = Some(1);
@@ -679,7 +714,7 @@ fn shutdown_case(out: &mut Out, r: &mut Rng, nworkers: usize, client_stats: bool
     }
     let stop = Arc::new(AtomicBool::new(false));
     let mut handles = vec![];
-    let nthreads = match regime { "idle" => 0, "early" => 0, "load" => 4, "load-stats" => 4 * nworkers.max(1), "persist-fault" => 2, "junk" => 2 * nworkers.max(1), _ => 6 };
+    let nthreads = match regime { "idle" => 0, "early" => 0, "load" => 4, "load-stats" => 4 * nworkers.max(1), "persist-fault" => 2, "hc-silent" => 0, "junk" => 2 * nworkers.max(1), _ => 6 };
     for t in 0..nthreads {
         let stop = stop.clone();
         let flood = regime == "flood";
@@ -742,6 +777,15 @@ fn shutdown_case(out: &mut Out, r: &mut Rng, nworkers: usize, client_stats: bool
             }
             pairs
         }));
+    }
+    // silent health-check connections (a TCP connect that never sends and never closes: port scanners, L4 probes) opened
+    // just before the signal: whatever the handler does with them must not delay the exit (seeded change C19-r9)
+    let mut held: Vec<TcpStream> = vec![];
+    if regime == "hc-silent" {
+        if let Some(hp) = sp.hc_port {
+            let a: SocketAddr = format!("127.0.0.1:{}", hp).parse().unwrap();
+            for _ in 0..12 { if let Ok(c) = TcpStream::connect_timeout(&a, Duration::from_secs(2)) { held.push(c); } }
+        }
     }
     let live;
     if regime == "early" {
@@ -820,6 +864,12 @@ pub fn run_shutdown(ctx: &Ctx) {
         if !ctx.thorough && k == 2 { continue; }
         let sig = if k % 2 == 0 { libc::SIGINT } else { libc::SIGTERM };
         shutdown_case(&mut out, &mut r, w, true, sig, "load-stats", 2600 + 400 * k as u64);
+    }
+    // silent health-check connections pending when the signal arrives
+    for (k, &w) in [1usize, 4, 1, 16].iter().enumerate() {
+        if !ctx.thorough && k >= 2 { continue; }
+        let sig = if k % 2 == 0 { libc::SIGTERM } else { libc::SIGINT };
+        shutdown_case(&mut out, &mut r, w, k % 2 == 1, sig, "hc-silent", 40 + 60 * k as u64);
     }
     // the reporter's persistence directory removed under load (reports fail): signals swept across a reporting period
     for (k, &d) in [1100u64, 1400, 1900, 2300, 2700, 3300].iter().enumerate() {
